@@ -6,7 +6,7 @@ library runs in a *forked* child of this (pristine: typhon imported, no FileSet 
 afterwards), (b) a load happens in a process that shares no Python state with the saver, exactly as after an
 interpreter restart, (c) the atexit handlers FileSet registers never run here.
 
-Crash injection needs no source change: the names `open`, `shutil.move`, `os.rename`, `os.replace` and the
+Crash injection needs no source change: the names `open`, `shutil.move`, `os.rename`, `os.replace`, `os.remove`/`unlink`/`truncate`/`link` and the
 copy functions that save_cache can reach are wrapped from outside; every file opened for writing is a proxy
 whose write() performs the write in two halves, flushing after each, so that "after k primitives" is a
 well-defined state of the disk.
@@ -227,6 +227,11 @@ class Injector:
         wrap(os, "replace", "rename")
         for n in ("copy", "copy2", "copyfile"):
             wrap(shutil, n, "copy")
+        # every other way of changing a directory entry is a primitive too (a crash right after it must leave a loadable
+        # cache file): the unchanged save_cache uses none of them, so the primitive count of the model is unaffected
+        for n in ("remove", "unlink", "truncate", "link", "symlink"):
+            if hasattr(os, n):
+                wrap(os, n, n)
 
 
 def do_save(tmp, main, entries, crash_at):
@@ -317,9 +322,8 @@ def job_sweep(job):
             _, _, old_doc = reference_doc(job["old_entries"])
         loader = Loader(tmp, main)
         points = []
-        n = len(events)
-        ks = job.get("points") or list(range(n + 1))
-        for k in ks:
+
+        def prior_state():
             put_file(main, None)
             put_file(backup, None)
             if old_doc is not None:
@@ -327,6 +331,16 @@ def job_sweep(job):
                     f.write(old_doc)
             if job.get("stale_backup") is not None:
                 put_file(backup, {"text": job["stale_backup"]})
+        # the primitives of THIS save over THIS previous state (a save may do other things when files exist already,
+        # e.g. remove the old file first): counted on an undisturbed run, then every prefix is crashed
+        prior_state()
+        code, full = in_child(lambda: do_save(tmp, main, job["entries"], None))
+        if code == 0 and full is not None and not full.get("raised"):
+            events = full["events"]
+        n = len(events)
+        ks = job.get("points") or list(range(n + 1))
+        for k in ks:
+            prior_state()
             code, res = in_child(lambda: do_save(tmp, main, job["entries"], k if k < n else None))
             b, obs = loader.observe()
             cls = "missing" if b is None else "new" if b == new_doc else "old" if (old_doc is not None and b == old_doc) \
